@@ -366,8 +366,10 @@ def inspect_selection_unit(res):
     ex.invariants[("get_line_range", 0)] = inv
     NP, NK = z3.Ints("n_parsed n_section")
     lineno = z3.Function("line_number", I, I)
-    ins = Schema("pline", ["InstructionForm"], {"line_number": ("int",)})
+    # parsed lines: a number and - for instruction lines only - a mnemonic (labels, directives, comments have none)
+    ins = Schema("pline", ["InstructionForm"], {"line_number": ("int",), "mnemonic": ("optstr",)})
     ins.fn["line_number"] = lineno
+    ins.fn["mnemonic"] = (z3.Function("line_has_mnemonic", I, z3.BoolSort()), z3.Function("mnemonic_id", I, I))
     parsed = SymSeq(NP, lambda i: SRef(i, ins))
     section = SymSeq(NK, lambda i: SRef(z3.Function("section_line", I, I)(i), ins))
     for with_lines, with_arch, first_fails in [(l, a, f) for l in (False, True) for a in (False, True) for f in (False, True) if not (f and l)]:
